@@ -126,6 +126,12 @@ Definition handle_metadata (c : cluster) (r : mreq) (host : bytes) (port : Z) : 
 Definition handle_metadata_unfixed (c : cluster) (r : mreq) (host : bytes) (port : Z) : cluster :=
   build_response_unfixed (load_metadata c r) host port.
 
+(* the Metadata case of handleConnection on a ready proxy: when the store fails
+   (error / timeout) handleMetadata returns the error and the connection is dropped
+   without a reply; the request is never handed to a backend *)
+Definition conn_metadata (store_ok : bool) (c : cluster) (r : mreq) (host : bytes) (port : Z) : option cluster :=
+  if store_ok then Some (handle_metadata c r host port) else None.
+
 (* buildNotReadyResponse, Metadata case *)
 Definition not_ready_metadata (r : mreq) : cluster :=
   mkCluster [] (-1)
